@@ -52,16 +52,27 @@ def run(facts, rep, tier):
     s2 = None
     for bi in sorted(reg.blocks):
         t = proc.blocks[bi]["term"]
-        if t["k"] == "switch":
+        if t["k"] == "switch" and bi != s1bb:
             e = expr(du, t["discr"])
-            if e[0] == "call" and e[1].split("::")[-1] in ("all", "any", "contains") and "filter" in show(e):
+            if e[0] == "call" and "filter" in show(e):
                 s2 = (bi, t, e)
     if s2 is None:
-        raise Broken("C16 anchor: filter predicate not recognised (expected all/any/contains over Args.filter)")
+        raise Broken("C16 anchor: no decision computed from Args.filter in the per-line region")
     s2bb, s2t, pe = s2
+    # outer wrappers: is_some/is_none/is_ok/is_err of a search
     method = pe[1].split("::")[-1]
+    outer = None
+    if method in ("is_some", "is_none", "is_ok", "is_err") and pe[2] and pe[2][0][0] == "call":
+        outer = method
+        inner_call_bb = None
+        pe_in = pe[2][0]
+        method = pe_in[1].split("::")[-1]
+    else:
+        pe_in = pe
+    if method not in ("all", "any", "contains", "find", "position", "binary_search"):
+        raise Broken("C16 anchor: filter predicate form not recognised: %s" % show(pe)[:160])
     # the predicate must range over the WHOLE list: only neutral calls between it and the -f payload
-    recv = pe[2][0]
+    recv = pe_in[2][0]
     chain = []
     while recv[0] == "call":
         chain.append(recv[1].split("::")[-1])
@@ -74,19 +85,34 @@ def run(facts, rep, tier):
     # semantic form
     member_true = None  # predicate true <=> df in list ?
     why = ""
-    if method == "contains":
-        needle = pe[2][1]
+    if method == "contains" and outer is None:
+        needle = pe_in[2][1]
         if df_of_line(needle):
             member_true = True
         else:
             why = "contains() is asked about %s, not the frame's DF" % show(needle)
+    elif method == "binary_search":
+        needle = pe_in[2][1]
+        srt = _list_sorted_somewhere(facts, "filter")
+        if not df_of_line(needle):
+            why = "binary_search() is asked about %s, not the frame's DF" % show(needle)
+        elif not srt:
+            why = ("binary_search() is only a membership test on a sorted slice, and nothing sorts the -f list "
+                   "(it is kept in command-line order): listed formats can be reported absent")
+        elif outer in ("is_ok", "is_err"):
+            member_true = outer == "is_ok"
+        else:
+            why = "binary_search result used through %s" % outer
     else:
-        ce = pe[2][1]
+        if method in ("find", "position") and outer not in ("is_some", "is_none"):
+            raise Broken("C16 anchor: %s() result not tested by is_some/is_none" % method)
+        if method in ("all", "any") and outer is not None:
+            raise Broken("C16 anchor: %s().%s()" % (method, outer))
         clos = None
-        r = du.root(_call_arg(proc, du, s2bb, s2t, 1))
-        if r and r[0] == "rv" and r[1]["rv"].get("agg") == "closure":
-            clos = facts.bodies[r[1]["rv"]["closure"]]
-            cap_exprs = [expr(du, o) for o in r[1]["rv"]["ops"]]
+        r = _closure_of(proc, du, pe_in)
+        if r is not None:
+            clos = facts.bodies[r["rv"]["closure"]]
+            cap_exprs = [expr(du, o) for o in r["rv"]["ops"]]
         if clos is None:
             raise Broken("C16 anchor: predicate closure not found")
         cdu = DefUse(clos)
@@ -104,6 +130,8 @@ def run(facts, rep, tier):
                         member_true = False
                     elif method == "any" and ret[1] == "Eq":
                         member_true = True
+                    elif method in ("find", "position") and ret[1] == "Eq":
+                        member_true = outer == "is_some"
                     else:
                         why = "%s(|x| x %s df) is not a membership test" % (method, ret[1])
                 else:
@@ -241,6 +269,32 @@ def run(facts, rep, tier):
             rep.add(Finding("R16.3", "%s : counter line does not print key and count" % pb.name, "the counter line omits DF or count", pb.loc()))
     rep.instances("R16.3", 5, floor=5)
     rep.assumptions += ["'accepted frame' is what passes the three gates (C02/C04); the gates' own correctness is C02/C04's"]
+
+
+def _closure_of(proc, du, call_expr):
+    """the closure aggregate statement passed as 2nd argument to the call whose expression tree is call_expr"""
+    name = call_expr[1]
+    for bi, t in proc.calls():
+        if callee_name(t) == name and len(t["args"]) >= 2:
+            r = du.root(t["args"][1])
+            if r and r[0] == "rv" and r[1]["rv"].get("agg") == "closure":
+                if expr(du, t["args"][0]) == call_expr[2][0]:
+                    return r[1]
+    return None
+
+
+def _list_sorted_somewhere(facts, field):
+    """is a sort applied to Args.<field> anywhere in the crate (e.g. right after parsing)?"""
+    for b in facts.bodies.values():
+        if b.kind == "promoted" or "::tests::" in b.name:
+            continue
+        du = None
+        for bi, t in b.calls():
+            if t["callee"].get("name") in ("sort", "sort_unstable", "sort_by", "sort_by_key", "sort_unstable_by", "sort_unstable_by_key") and t["args"]:
+                du = du or DefUse(b)
+                if ("." + field) in show(expr(du, t["args"][0])) or show(expr(du, t["args"][0])).endswith(field):
+                    return True
+    return False
 
 
 def _call_arg(proc, du, swbb, swt, idx):
